@@ -44,6 +44,9 @@ functions mirroring go1.23 / rare, and `match_eq_spec`, `match_sound`, `match_ba
   regenerated control tree of `OpenFilesToChan`), never more than `--readers` are held, none at the end.
 * `exit_code_precedence` – over the regenerated if-chain of `DetermineErrorState`.
 * `gunzip_fallback`, `gunzip_decodes` – `-z` on non-gzip content delivers it from its first byte.
+* `reader_exec_source`, `reader_body_matches_source`, `stdin_body_matches_source` – the reader goroutines of `OpenFilesToChan`
+  and `OpenReaderToChan` EXECUTED from their regenerated control trees and interpreted on the observables are `runFile` /
+  `runStdin` for every oracle (errors counted, log lines, delivered lines, one slot release / `wg.Done()` / channel close).
 * `code_shape` – the regenerated control skeletons equal the ones the model mirrors; `expand_matches_source`,
   `expand_tree_matches_source`, `walkRoot_matches_source`, `isDir_matches_source`, `open_matches_source` – the bodies of
   `GlobExpand`, `walkRoot`, `isDir`, `openFileToReader` regenerated as FUNCTIONS equal the hand model for all inputs.
@@ -1543,5 +1546,45 @@ example :
     e2.errs = 0 ∧ e2.released = 1 ∧ (runFile false [120] FileOracle.missing).errs = 1 := by
   decide
 
+
+/-! ## The standard-input reader (`OpenReaderToChan`), executed from its source text -/
+
+/-- the body of the goroutine `OpenReaderToChan` starts, from the regenerated control tree -/
+def stdinBody : Ctl := (firstGo Gen.C06.openReaderToChanTree).getD .nil
+
+/-- **`-` / no argument: the reader of standard input IS its source text, interpreted.**  The goroutine of
+    `OpenReaderToChan` has no branch; its one execution (deferred calls unrolled, last registered first) is
+    `startFileReading; syncReaderToBatcherWithTimeFlush; out.close(); reader.Close()`.  Interpreted on the observables
+    (the regenerated `OnError` callback of `syncReaderToBatcherWithTimeFlush` from `Gen.C01` runs iff the stream fails)
+    it is `runStdin` for every content and failure: same counted errors, log lines, delivered lines; the batch channel
+    is closed exactly once and AFTER the error was counted (`errsAtClose` = all errors of the input: the consumer that
+    sees the channel closed reads the final `ReadErrors()`), standard input is closed once. -/
+theorem stdin_body_matches_source (data : Bytes) (fails : Bool) :
+    let ops := exec (fun _ => false) stdinBody
+    let e := interpStdin (onErrorBody Gen.C01.scanner_syncReaderToBatcherWithTimeFlush) stdinName data fails ops
+    let r := runStdin data fails
+    ops = ["do:out.startFileReading(sourceName)",
+           "do:out.syncReaderToBatcherWithTimeFlush(sourceName,reader,batchSize,AutoFlushTimeout)",
+           "do:out.close()", "do:reader.Close()"] ∧
+    e.bad = false ∧ r.errs = e.errs ∧ r.logs = e.logs ∧ r.lines = e.lines ∧
+    e.started = 1 ∧ e.chanClosed = 1 ∧ e.errsAtClose = some r.errs ∧ e.closed = 1 := by
+  intro ops e r
+  have hops : ops = ["do:out.startFileReading(sourceName)",
+      "do:out.syncReaderToBatcherWithTimeFlush(sourceName,reader,batchSize,AutoFlushTimeout)",
+      "do:out.close()", "do:reader.Close()"] := by decide
+  have hcl : ops.map classify = [.startStdin, .syncFlush, .closeChan, .closeReader] := by rw [hops]; decide
+  have hcb : (onErrorBody Gen.C01.scanner_syncReaderToBatcherWithTimeFlush).map classify = [.incErr, .logReadErr] := by decide
+  refine ⟨hops, ?_⟩
+  simp only [e, r, interpStdin, hcl, hcb, List.foldl, interpStdinStmt, runStdin, runStream]
+  cases fails <;> simp [interpOnError]
+
+/-- the interpretation discriminates: a body that closes the channel BEFORE reading (`out.close()` not deferred) has
+    counted no error yet when the channel closes, although the input fails -/
+example :
+    let early : Ctl := .deferS (.simple "do:reader.Close()" .nil) (.simple "do:out.startFileReading(sourceName)"
+      (.simple "do:out.close()" (.simple "do:out.syncReaderToBatcherWithTimeFlush(sourceName,reader,batchSize,AutoFlushTimeout)" .nil)))
+    let e := interpStdin ["do:s.incErrors()"] [60] [97, 10] true (exec (fun _ => false) early)
+    e.errs = 1 ∧ e.errsAtClose = some 0 ∧ (runStdin [97, 10] true).errs = 1 := by
+  decide
 
 end Rare.C06
